@@ -13,5 +13,7 @@ func init() {
 	register(C04{})
 	register(C05{})
 	register(C06{})
+	register(C07{})
+	register(C18{})
 	register(C20{})
 }
